@@ -121,6 +121,9 @@ class Module:
             elif isinstance(v, ast.Call) and not v.keywords and len(v.args) == 1 and isinstance(v.args[0], ast.Constant) and dotted(v.func) \
                     and self._imported_qual(dotted(v.func)) in ("operator.attrgetter", "operator.itemgetter"):
                 out[name] = (self, v)           # a closed constructor of a pure accessor: _coalition_id = attrgetter("id")
+            elif isinstance(v, ast.Tuple) and v.elts and all(isinstance(x, ast.Constant) and (x.value is None or isinstance(x.value, (bool, int, float, str)))
+                                                             for x in v.elts):
+                out[name] = (self, v)           # an immutable tuple of scalar literals: RECORD_FIELDS = ("data", "actions", "metadata")
         return out
 
     def _imported_qual(self, d: str) -> str:
